@@ -1045,10 +1045,15 @@ impl<'a> CompactionIterator<'a> {
 		self.accumulated_versions.dedup_by_key(|b| b.0.seq_num());
 
 		// Check if latest version is DELETE at bottom level
-		// If so, we can completely remove this key from the database
+		// If so, we can completely remove this key from the database - but only
+		// when every active snapshot can already see the DELETE. A snapshot taken
+		// before the DELETE still reads an older version of this key, so in that
+		// case the key is processed like at a non-bottom level (tombstone kept,
+		// snapshot-visible versions kept).
 		let latest_is_delete_at_bottom = self.is_bottom_level
 			&& !self.accumulated_versions.is_empty()
-			&& self.accumulated_versions[0].0.is_hard_delete_marker();
+			&& self.accumulated_versions[0].0.is_hard_delete_marker()
+			&& self.snapshots.first().is_none_or(|&s| s >= self.accumulated_versions[0].0.seq_num());
 
 		// Check if any version is REPLACE
 		// REPLACE semantics: delete all older versions regardless of retention
@@ -1125,11 +1130,10 @@ impl<'a> CompactionIterator<'a> {
 			} else if is_latest && !is_hard_delete && !is_replace {
 				// Latest PUT: never stale (will be output)
 				false
-			} else if is_latest && is_hard_delete && self.is_bottom_level {
-				// Latest DELETE at bottom: stale (won't be output)
-				true
-			} else if is_latest && is_hard_delete && !self.is_bottom_level {
-				// Latest DELETE at non-bottom: not stale (tombstone preserved)
+			} else if is_latest && is_hard_delete {
+				// Latest DELETE that could not be dropped above (non-bottom level, or a
+				// snapshot older than the DELETE still reads this key): not stale,
+				// the tombstone is preserved to mask the older versions
 				false
 			} else if is_latest && is_replace {
 				// Latest REPLACE: not stale (will be output)
